@@ -37,6 +37,7 @@
 EXTENDS Integers, Sequences, FiniteSets, TLC
 
 CONSTANTS Keys, Vals, MaxEpoch,
+          PrepEpochs,    \* oldest-epoch values offered to EpochStartPrepare
           ActiveNums,    \* candidate NumOfActivePersisters
           KeepNums,      \* candidate NumOfEpochsToKeep
           KnownDefects,
@@ -79,16 +80,27 @@ HasRes(k) == k \in DOMAIN cache \/ FirstWith(active, k) # -1
 EpochOnly(k, e) == IF e \in mapped /\ HasKey(e, k) THEN Hit(db[e][k]) ELSE Miss
 GfeRes(k, e) == IF k \in DOMAIN cache THEN Hit(cache[k]) ELSE EpochOnly(k, e)
 
-\* ---- projected state
-AllEpochs == DOMAIN db
+\* ---- projected state: what the harness reads from the real storer after every call.
+\* Raw state + the answers of the reads that do not change the abstract state (Has, SearchFirst, GetFromEpoch) for
+\* every key seen so far and every epoch up to one beyond the newest persister.  (Get fills the cache, so its
+\* answers are observed only where a behaviour / trace calls it.)
 KeysSeen == UNION {DOMAIN db[e] : e \in DOMAIN db} \cup DOMAIN cache \cup DOMAIN live \cup DOMAIN rem
-StOf ==
-    [active |-> active', mapped |-> mapped', open |-> open', putEpoch |-> putEpoch',
-     cache |-> {[k |-> k, v |-> cache'[k]] : k \in DOMAIN cache'},
-     db |-> {[e |-> ek[1], k |-> ek[2], v |-> db'[ek[1]][ek[2]]] :
-                ek \in {x \in (DOMAIN db') \X KeysSeen' : x[2] \in DOMAIN db'[x[1]]}},
-     epochs |-> DOMAIN db']
-Rec(a, in, out) == [a |-> a, in |-> in, out |-> out, st |-> StOf]
+MaxSet(S) == CHOOSE x \in S : \A y \in S : y <= x
+ProbeEpochs == 0..(MaxSet(DOMAIN db) + 1)
+StNow ==
+    [active |-> active, mapped |-> mapped,
+     \* open: only persisters still reachable from the epoch map or the active list are visible (and matter)
+     open |-> open \cap (mapped \cup Range(active)),
+     putEpoch |-> putEpoch,
+     cache |-> {[k |-> k, v |-> cache[k]] : k \in DOMAIN cache},
+     db |-> {[e |-> ek[1], k |-> ek[2], v |-> db[ek[1]][ek[2]]] :
+                ek \in {x \in (DOMAIN db) \X KeysSeen : x[2] \in DOMAIN db[x[1]]}},
+     epochs |-> DOMAIN db,
+     has |-> {k \in KeysSeen : HasRes(k)},
+     sf  |-> {[k |-> k, v |-> SearchRes(k).v] : k \in {x \in KeysSeen : SearchRes(x).ok}},
+     gfe |-> {[k |-> ke[1], e |-> ke[2], v |-> GfeRes(ke[1], ke[2]).v] :
+                ke \in {x \in KeysSeen \X ProbeEpochs : GfeRes(x[1], x[2]).ok}}]
+Rec(a, in, out) == [a |-> a, in |-> in, out |-> out, st |-> StNow']
 
 \* ---- ghost updates
 LiveOf(k) == Val(live, k, {})
@@ -105,26 +117,27 @@ GhostPutFailed(k, v) ==
     /\ cand' = Upd(cand, k, CandOf(k) \cup {v})
     /\ rem'  = Upd(rem, k, [on |-> FALSE, eps |-> {}])
 GhostSame == UNCHANGED <<live, cand, rem>>
+GhostPut(k, v, e, good) == IF good THEN GhostPutOk(k, v, e) ELSE GhostPutFailed(k, v)
 
 Init ==
     /\ nA \in ActiveNums /\ nK \in KeepNums /\ nK >= nA /\ clean \in BOOLEAN
     /\ db = (0 :> <<>>) /\ open = {0} /\ mapped = {0} /\ active = <<0>>
     /\ cache = <<>> /\ putEpoch = 0 /\ prep = -1 /\ shut = FALSE
     /\ live = <<>> /\ cand = <<>> /\ rem = <<>>
-    /\ hist = <<[a |-> "New", in |-> [nA |-> nA, nK |-> nK, clean |-> clean], out |-> [x |-> 0],
-                 st |-> [active |-> <<0>>, mapped |-> {0}, open |-> {0}, putEpoch |-> 0,
-                         cache |-> {}, db |-> {}, epochs |-> {0}]]>>
+    /\ hist = <<[a |-> "New", in |-> [nA |-> nA, nK |-> nK, clean |-> clean], out |-> [x |-> 0], st |-> StNow]>>
 
 Static == UNCHANGED <<cfgv, shut>>
 
 \* PruningStorer.Put
+\* where Put writes: the persister of the put-epoch when that epoch is retained and open, else the newest active one
+PutLanding == IF putEpoch \in mapped /\ putEpoch \in open THEN putEpoch ELSE Newest
 Put(k, v) ==
-    LET L == IF putEpoch \in mapped /\ putEpoch \in open THEN putEpoch ELSE Newest
+    LET L == PutLanding
         good == L \in open
     IN /\ db' = IF good THEN [db EXCEPT ![L] = Upd(@, k, v)] ELSE db
        /\ cache' = IF good THEN Upd(cache, k, v) ELSE Drop(cache, {k})   \* a failed Put removes the key from the cache
        /\ UNCHANGED <<open, mapped, active, putEpoch, prep>> /\ Static
-       /\ IF good THEN GhostPutOk(k, v, L) ELSE GhostPutFailed(k, v)
+       /\ GhostPut(k, v, L, good)
        /\ hist' = Log(hist, Rec("Put", [k |-> k, v |-> v], [ok |-> good]))
 
 \* PruningStorer.PutInEpoch: cache first, then the persister of that epoch (re-opened for the call if closed)
@@ -133,7 +146,7 @@ PutInEpoch(k, v, e) ==
     /\ cache' = Upd(cache, k, v)
     /\ db' = IF good THEN [db EXCEPT ![e] = Upd(@, k, v)] ELSE db
     /\ UNCHANGED <<open, mapped, active, putEpoch, prep>> /\ Static
-    /\ IF good THEN GhostPutOk(k, v, e) ELSE GhostPutFailed(k, v)
+    /\ GhostPut(k, v, e, good)
     /\ hist' = Log(hist, Rec("PutInEpoch", [k |-> k, v |-> v, e |-> e], [ok |-> good]))
 
 \* PruningStorer.Get: a hit in a persister fills the cache
@@ -166,6 +179,12 @@ Has(k) ==
 
 \* PruningStorer.Remove
 OpenActive == SelectSeq(active, LAMBDA e : e \in open)
+GhostRemove(k, good) ==
+    IF good
+    THEN /\ live' = Upd(live, k, {}) /\ cand' = Upd(cand, k, {})
+         \* the property's demand: gone from EVERY active (open) epoch
+         /\ rem' = Upd(rem, k, [on |-> TRUE, eps |-> Range(OpenActive)])
+    ELSE GhostSame
 Remove(k) ==
     LET targets == IF OpenActive = <<>> THEN {}
                    ELSE IF "remove-first-only" \in KnownDefects THEN {OpenActive[1]} ELSE Range(OpenActive)
@@ -173,11 +192,7 @@ Remove(k) ==
     IN /\ cache' = Drop(cache, {k})
        /\ db' = [e \in DOMAIN db |-> IF e \in targets THEN Drop(db[e], {k}) ELSE db[e]]
        /\ UNCHANGED <<open, mapped, active, putEpoch, prep>> /\ Static
-       /\ IF good
-          THEN /\ live' = Upd(live, k, {}) /\ cand' = Upd(cand, k, {})
-               \* the property's demand: gone from EVERY active (open) epoch
-               /\ rem' = Upd(rem, k, [on |-> TRUE, eps |-> Range(OpenActive)])
-          ELSE GhostSame
+       /\ GhostRemove(k, good)
        /\ hist' = Log(hist, Rec("Remove", [k |-> k], [ok |-> good]))
 
 ClearCache ==
@@ -232,6 +247,12 @@ CloseResult(act, e, mp, op) ==
         mp2 == IF doClean THEN mp \ run ELSE mp
     IN [act |-> act2, open |-> op2, mapped |-> mp2]
 
+\* a brand-new epoch contains no key: it counts as "removed from" for every removed key
+GhostChangeEpoch(e) ==
+    /\ rem' = IF e \in DOMAIN db THEN rem
+              ELSE [k \in DOMAIN rem |-> IF rem[k].on THEN [on |-> TRUE, eps |-> rem[k].eps \cup {e}] ELSE rem[k]]
+    /\ UNCHANGED <<live, cand>>
+
 \* EpochStartAction(header of epoch e); ho = -1: shard header (the prepared metablock decides about stuck shards),
 \* ho >= 0: a metablock whose own oldest epoch (itself / last finalized headers) is ho
 ChangeEpoch(e, ho) ==
@@ -250,10 +271,7 @@ ChangeEpoch(e, ho) ==
                   THEN active' = X.act /\ open' = op1 \cup X.opened /\ mapped' = mp1
                   ELSE active' = C.act /\ open' = C.open /\ mapped' = C.mapped
     /\ UNCHANGED <<cache, putEpoch, prep>> /\ Static
-    \* a brand-new epoch contains no key: it counts as "removed from" for every removed key
-    /\ rem' = IF e \in DOMAIN db THEN rem
-              ELSE [k \in DOMAIN rem |-> IF rem[k].on THEN [on |-> TRUE, eps |-> rem[k].eps \cup {e}] ELSE rem[k]]
-    /\ UNCHANGED <<live, cand>>
+    /\ GhostChangeEpoch(e)
     /\ hist' = Log(hist, Rec("ChangeEpoch", [e |-> e, ho |-> ho], [x |-> 0]))
 
 Reads ==
@@ -265,7 +283,7 @@ Writes ==
     \/ \E k \in Keys : Remove(k)
     \/ \E e \in 0..MaxEpoch : SetEpochForPut(e)
     \/ Close
-    \/ \E o \in 0..MaxEpoch : Prepare(o)
+    \/ \E o \in PrepEpochs : Prepare(o)
     \/ \E e \in {Newest, Newest + 1}, ho \in (-1)..MaxEpoch : e <= MaxEpoch /\ ho <= e /\ ChangeEpoch(e, ho)
 Next == Reads \/ (~shut /\ Writes)
 
@@ -273,7 +291,8 @@ Spec == Init /\ [][Next]_vars
 
 -----------------------------------------------------------------------------
 (* C30 *)
-OpenActiveSet == ActiveSet \cap open
+\* the active epochs ("newest-first open persisters"); after Close() the storer is shut down and promises nothing
+OpenActiveSet == IF shut THEN {} ELSE ActiveSet
 
 \* (1) a value put into epoch e stays readable through plain reads while e is among the active (open) epochs
 Inv_C30_ReadableWhileActive ==
@@ -296,28 +315,52 @@ Inv_C30_ReadableWhileRetained ==
     \A k \in DOMAIN live : \A p \in live[k] :
         p.e \in mapped => GfeRes(k, p.e).ok /\ EpochOnly(k, p.e) = Hit(p.v)
 
-\* (3) after a key is removed no read returns it from any active epoch
+\* (3) after a key is removed no read returns it from any active epoch.
+\* eps = the epochs that were active (open) when Remove succeeded plus the epochs created since; an older epoch
+\* that is re-activated later for a stuck shard is outside eps (Remove cannot reach a closed persister).
+\* The cache is set aside: it may hold a copy read earlier from such a re-activated epoch.
 Inv_C30_RemovedUnreadable ==
     \A k \in DOMAIN rem :
         rem[k].on =>
-            /\ \A e \in rem[k].eps \cap OpenActiveSet : ~HasKey(e, k)        \* epoch-specific read, cache aside
-            /\ OpenActiveSet \subseteq rem[k].eps
+            /\ \A e \in rem[k].eps \cap OpenActiveSet : ~HasKey(e, k)
+            /\ (OpenActiveSet # {} /\ OpenActiveSet \subseteq rem[k].eps /\ k \notin DOMAIN cache)
                   => ~GetRes(k).ok /\ ~SearchRes(k).ok /\ ~HasRes(k)
                      /\ \A e \in OpenActiveSet : ~GfeRes(k, e).ok
 
 \* the answer recorded by the last call obeys the same three clauses (binds the real answers in trace validation)
 Last == hist[Len(hist)]
 LiveActive(k) == \E p \in LiveOf(k) : p.e \in OpenActiveSet
-RemovedEverywhere(k) == RemOf(k).on /\ OpenActiveSet \subseteq RemOf(k).eps
+RemovedEverywhere(k) ==
+    RemOf(k).on /\ OpenActiveSet # {} /\ OpenActiveSet \subseteq RemOf(k).eps /\ k \notin DOMAIN cache
 Inv_C30_Answers ==
     hist = <<>> \/
-    CASE Last.a \in {"Get", "SearchFirst", "Has"} ->
+    CASE Last.a = "Get" -> LiveActive(Last.in.k) => Last.out.ok
+      [] Last.a \in {"SearchFirst", "Has"} ->          \* these two do not touch the cache
             /\ LiveActive(Last.in.k) => Last.out.ok
             /\ RemovedEverywhere(Last.in.k) => ~Last.out.ok
       [] Last.a = "GetFromEpoch" ->
             /\ (\E p \in LiveOf(Last.in.k) : p.e = Last.in.e /\ p.e \in mapped) => Last.out.ok
             /\ (RemovedEverywhere(Last.in.k) /\ Last.in.e \in OpenActiveSet) => ~Last.out.ok
+      [] Last.a = "Remove" -> Last.out.ok => Last.in.k \notin DOMAIN cache    \* a removed key leaves the cache too
       [] OTHER -> TRUE
+
+\* the same three clauses on the read answers recorded in the projected state (in trace validation these are the
+\* answers the real storer gave after the last call) ...
+Obs == Last.st
+Inv_C30_ObservedReads ==
+    hist = <<>> \/
+    /\ \A k \in DOMAIN live : \A p \in live[k] :
+          /\ p.e \in OpenActiveSet => k \in Obs.has /\ (\E r \in Obs.sf : r.k = k)
+          /\ p.e \in mapped => \E r \in Obs.gfe : r.k = k /\ r.e = p.e
+    /\ \A k \in DOMAIN rem :
+          RemovedEverywhere(k) =>
+              /\ k \notin Obs.has /\ ~(\E r \in Obs.sf : r.k = k)
+              /\ ~(\E r \in Obs.gfe : r.k = k /\ r.e \in OpenActiveSet)
+\* ... and on the persister contents: a retained epoch still holds what was put into it, and an active epoch a key
+\* was removed from does not hold it
+Inv_C30_PersisterContents ==
+    /\ \A k \in DOMAIN live : \A p \in live[k] : p.e \in mapped => EpochOnly(k, p.e) = Hit(p.v)
+    /\ \A k \in DOMAIN rem : rem[k].on => \A e \in rem[k].eps \cap OpenActiveSet : ~HasKey(e, k)
 
 TypeOK ==
     /\ mapped \subseteq DOMAIN db /\ open \subseteq DOMAIN db /\ ActiveSet \subseteq DOMAIN db
@@ -325,4 +368,6 @@ TypeOK ==
     /\ \A i, j \in 1..Len(active) : i < j => active[i] > active[j]
     \* persistersMapByEpoch[e] is the persister of e: the persister closed by closePersisters is the one of e - nA
     /\ Len(active) > nA => active[nA + 1] = active[1] - nA
+    \* until Close() every active persister is open
+    /\ ~shut => ActiveSet \subseteq open
 =============================================================================
